@@ -632,7 +632,10 @@ def b_int(ip, st, x=0, base=None):
         except (ValueError, TypeError) as ex:
             _raise(type(ex), str(ex))
     if isinstance(x, SReal):
-        return V.trunc_real(x)
+        r = V.trunc_real(x)
+        if getattr(st.cfg, "rounding_hints", False):
+            _rounding_hint(st, x.e, r)
+        return r
     if isinstance(x, SBool):
         return mk_int(V._z(x))
     if isinstance(x, SInt):
@@ -647,6 +650,25 @@ def b_int(ip, st, x=0, base=None):
         return int(x)
     except (ValueError, TypeError) as ex:
         _raise(type(ex), str(ex))
+
+
+def _rounding_hint(st, xe, r):
+    """For the rounding idiom q = int(n / t + 0.5) with integer terms n, t: state the consequence
+    t > 0 and n >= 0  =>  2*t*q <= 2*n + t < 2*t*(q+1)
+    (q = floor(n/t + 1/2) multiplied out by 2t > 0) - a valid fact of real arithmetic, added only because the
+    solver's nonlinear reasoning finds it unreliably.  Switched on per contract (`rounding_hints = True`)."""
+    if not (z3.is_add(xe) and xe.num_args() == 2):
+        return
+    a, b = xe.arg(0), xe.arg(1)
+    if z3.is_rational_value(a):
+        a, b = b, a
+    if not (z3.is_rational_value(b) and b.numerator_as_long() == 1 and b.denominator_as_long() == 2 and z3.is_div(a)):
+        return
+    n, t = a.arg(0), a.arg(1)
+    if not (z3.is_to_real(n) and z3.is_to_real(t)):
+        return
+    n, t, q = n.arg(0), t.arg(0), V._z(r)
+    st.assume(z3.Implies(z3.And(t > 0, n >= 0), z3.And(2 * t * q <= 2 * n + t, 2 * n + t < 2 * t * (q + 1))))
 
 
 def b_float(ip, st, x=0.0):
@@ -888,7 +910,68 @@ def b_sorted(ip, st, x, key=None, reverse=False):
     v = ip.iter_view(st, st.force(x))
     if isinstance(v, tuple) and _all_conc(v) and key is None:
         return LRef(tuple(sorted(v, reverse=bool(reverse))))
+    if isinstance(v, LRef):
+        v = v.seq
+    if key is None and reverse is False and isinstance(v, SSeq):
+        return LRef(sorted_model(st, v))
     raise Unsupported("sorted() of symbolic sequence")
+
+
+def lex_le(a, b):
+    """a <= b for ints or equal-length tuples of ints (lexicographic), as a formula; dual use."""
+    if not isinstance(a, tuple):
+        return a <= b
+    r = True
+    for x, y in reversed(list(zip(a, b))):
+        r = either(x < y, both(x == y, r))
+    return r
+
+
+def sorted_model_holds(inp, out, perm):
+    """The assumed contract of `sorted(inp)` for a list of ints / equal-length int tuples, executable form
+    (cross-checked against CPython's sorted): `out` has the length of `inp`, is `inp` rearranged by the bijection
+    `perm` (out[i] = inp[perm[i]]), is ascending (lexicographically for tuples), and - a consequence of being a
+    rearrangement, stated because the symbolic model cannot derive it without induction - every component has
+    the same total."""
+    n = len(inp)
+    if len(out) != n or sorted(perm) != list(range(n)):
+        return False
+    if any(out[i] != inp[perm[i]] for i in range(n)):
+        return False
+    if any(not lex_le(out[i], out[i + 1]) for i in range(n - 1)):
+        return False
+    comps = [None] if not (inp and isinstance(inp[0], tuple)) else range(len(inp[0]))
+    return all(sum(x if c is None else x[c] for x in inp) == sum(x if c is None else x[c] for x in out) for c in comps)
+
+
+def sorted_model(st, base):
+    """Assumed contract of `sorted(base)` (no key, ascending) for a sequence of symbolic length whose elements
+    are ints or tuples of ints - the symbolic form of `sorted_model_holds`:
+      result[i] = base[perm(i)] with perm a bijection of [0, n) (inverse `inv`), adjacent elements ascending
+      (lexicographic), and for each int component the total of the result equals the total of the input
+      (component prefix sums: seqs.comp_psum).  The result carries `.sort_perm`, `.sort_inv`, `.sorted_of`."""
+    from . import shapes as S
+
+    shp = base.shape
+    if isinstance(shp, S._Int):
+        comps = [None]
+    elif isinstance(shp, S.Tup) and shp.items and all(isinstance(x, S._Int) for x in shp.items):
+        comps = list(range(len(shp.items)))
+    else:
+        raise Unsupported(f"sorted() of a symbolic sequence of {shp!r} (only ints / tuples of ints are modelled)")
+    n = base.length
+    perm = z3.Function(st.fresh_name("sortperm"), z3.IntSort(), z3.IntSort())
+    inv = z3.Function(st.fresh_name("sortinv"), z3.IntSort(), z3.IntSort())
+    zp = lambda t: mk_int(perm(V._z(t)))  # noqa: E731
+    zi = lambda t: mk_int(inv(V._z(t)))  # noqa: E731
+    res = SSeq(n, lambda i: base.get(zp(i)), shp, None, st.fresh_name("sorted"))
+    res.sort_perm, res.sort_inv, res.sorted_of = zp, zi, base
+    st.assume(V.forall(0, n, lambda i: both(zp(i) >= 0, zp(i) < n, zi(zp(i)) == i)))
+    st.assume(V.forall(0, n, lambda j: both(zi(j) >= 0, zi(j) < n, zp(zi(j)) == j)))
+    st.assume(V.forall(0, n - 1, lambda i: lex_le(res.get(i), res.get(i + 1))))
+    for c in comps:
+        st.assume(Q.comp_psum(res, c, n) == Q.comp_psum(base, c, n))
+    return res
 
 
 def b_hasattr(ip, st, obj, name):
